@@ -279,7 +279,52 @@ fn odd_requests(rng: &mut StdRng) -> Vec<String> {
     v
 }
 
+/// Every fourth scenario builds its tables on 6 threads released together, each constructing all of
+/// its routers back to back before any of them is queried: route tables built at the same time by
+/// different parts of a program are still "every route table", and whatever process-wide state the
+/// router's construction uses (id counters, interners) is exercised under real contention.
 pub fn scenario(idx: usize, seed: u64, tables: usize) -> ScenarioResult {
+    if idx % 4 != 3 || super::miri() {
+        return scenario_on(idx, seed, tables, None);
+    }
+    let gate = Arc::new(std::sync::Barrier::new(6));
+    let hs: Vec<_> = (0..6u64)
+        .map(|k| {
+            let gate = gate.clone();
+            std::thread::spawn(move || scenario_on(idx, seed ^ (k << 40), tables, Some(&*gate)))
+        })
+        .collect();
+    let mut out: Option<ScenarioResult> = None;
+    for h in hs {
+        let r = match h.join() {
+            Ok(r) => r,
+            Err(_) => ScenarioResult::inconclusive("a concurrent-construction thread of the harness died"),
+        };
+        out = Some(match out {
+            None => r,
+            Some(mut acc) => {
+                let mut counters = acc.counters.clone();
+                for (k, v) in &r.counters {
+                    if k.starts_with("sig:") {
+                        counters.insert(k.clone(), 1);
+                    } else {
+                        *counters.entry(k.clone()).or_default() += v;
+                    }
+                }
+                if !matches!(acc.verdict, runner::Verdict::Violated { .. }) && !matches!(r.verdict, runner::Verdict::Held) {
+                    acc = r;
+                }
+                acc.counters = counters;
+                acc
+            }
+        });
+    }
+    let mut out = out.unwrap();
+    *out.counters.entry("tables_built_concurrently_with_5_other_threads".into()).or_default() += 1;
+    out
+}
+
+fn scenario_on(idx: usize, seed: u64, tables: usize, gate: Option<&std::sync::Barrier>) -> ScenarioResult {
     let _ = runner::take_panics();
     let mut rng = StdRng::seed_from_u64(seed ^ 0xc16);
     let rt = tokio::runtime::Builder::new_current_thread().build().unwrap();
@@ -287,18 +332,21 @@ pub fn scenario(idx: usize, seed: u64, tables: usize) -> ScenarioResult {
     let (mut n_tables, mut n_rejected, mut n_req, mut n_match, mut n_nf, mut n_dc, mut n_layered, mut n_merged) = (0u64, 0u64, 0u64, 0u64, 0u64, 0u64, 0u64, 0u64);
     let mut sigs: std::collections::BTreeSet<String> = Default::default();
     let mut sample = None;
+    // phase 1: construct every table of this scenario (back to back; released together with the
+    // other threads of a concurrent-construction scenario)
+    let mut all_built = Vec::new();
+    if let Some(g) = gate {
+        g.wait();
+    }
     for _t in 0..tables {
-        if !problems.is_empty() {
-            break;
-        }
         let hits: Arc<Vec<AtomicU64>> = Arc::new((0..64).map(|_| AtomicU64::new(0)).collect());
         let layer_seen = Arc::new(AtomicU64::new(0));
         let mut ops = Vec::new();
         let mut rng2 = StdRng::seed_from_u64(rng.gen());
         let (mut nl, mut nt) = (0u32, 1u32);
         let built = std::panic::catch_unwind(std::panic::AssertUnwindSafe(|| build(&mut rng2, 0, &hits, &mut nl, &mut nt, &layer_seen, &mut ops)));
-        let built = match built {
-            Ok(b) => b,
+        match built {
+            Ok(b) => all_built.push((b, hits, layer_seen, ops)),
             Err(_) => {
                 // documented build-time rejection (conflicting or malformed patterns)
                 let p = runner::take_panics();
@@ -307,9 +355,14 @@ pub fn scenario(idx: usize, seed: u64, tables: usize) -> ScenarioResult {
                     problems.push(format!("router construction panicked with an undocumented message: {msg}"));
                 }
                 n_rejected += 1;
-                continue;
             }
-        };
+        }
+    }
+    // phase 2: query them
+    for (built, hits, layer_seen, ops) in all_built {
+        if !problems.is_empty() {
+            break;
+        }
         n_tables += 1;
         if ops.iter().any(|o| o.contains("merge(")) {
             n_merged += 1;
@@ -446,7 +499,7 @@ pub fn run(ctx: &Ctx) -> i32 {
         property: "C16",
         tier,
         seed: ctx.seed,
-        scenarios: if super::miri() { 2 } else { tier.pick(640, 20_000) },
+        scenarios: if super::miri() { 2 } else { tier.pick(2_000, 20_000) },
         threads: super::threads(),
         watchdog: Duration::from_secs(if super::miri() { 3_000 } else { 300 }),
         budget: Duration::from_secs(tier.pick(90, 900)),
